@@ -507,7 +507,13 @@ func (c *gen) statePredBait() *Expr {
 	if c.chance(40, "statepredand") {
 		k = KAnd
 	}
-	if !c.cfg.Preds {
+	if !c.cfg.Preds || c.chance(35, "statenopred") {
+		// ( #{..} t u )? / ( #{..} t u )* : a sequence that changes the state with its first
+		// expression and fails later, directly under ? or *
+		operand.Sub = append(operand.Sub, c.consuming())
+		if c.chance(50, "statestar") {
+			return &Expr{K: KStar, Sub: []*Expr{operand}}
+		}
 		return &Expr{K: KOpt, Sub: []*Expr{operand}}
 	}
 	return &Expr{K: KOpt, Sub: []*Expr{{K: k, Sub: []*Expr{operand}}}}
@@ -923,7 +929,7 @@ func GrammarGen(cfg GenConfig) *rapid.Generator[*Grammar] {
 				c.g.Entries = append(c.g.Entries, w.Name)
 			}
 		}
-		if cfg.SharedRefs && !cfg.OptBait {
+		if (cfg.SharedRefs && !cfg.OptBait) || cfg.Profile == "utf8" {
 			// Loop = ( E1 / E2 / . )* : an entry that works its way through any input, trying the
 			// other entries at every offset (long inputs, see C06)
 			alts := &Expr{K: KChoice}
